@@ -728,6 +728,7 @@ func vcRunC14Multi(t *vcTrial) {
 	audit := vcStartAudit()
 	before := vcOpenFDs()
 	t0 := time.Now()
+	dmark := vcTraceMark()
 	c, derr := DialConnection("tcp", fmt.Sprintf("%s:%d", host, port), timeout)
 	el := time.Since(t0)
 	isNil := vcIsNilConn(c)
@@ -759,8 +760,14 @@ func vcRunC14Multi(t *vcTrial) {
 		case "ok":
 			t.Violate("C14", "spurious_failure", "%s failed with %v after %v although an accepting address follows only refusing ones", desc, derr, el)
 		case "timeout":
-			if !isTO {
-				t.Violate("C14", "timeout_not_reported", "%s ended after %v with %q (%T): the timeout expired while a silently dropping address was being dialed, but the error does not report Timeout()", desc, el, derr.Error(), derr)
+			// only a connect that was actually waiting when the deadline passed (hook DialCtxDone) must
+			// report Timeout(); on a slow machine the deadline can pass while an earlier, refusing
+			// address is still being handled - then that address's own error is what the dial returns
+			waited := vcSeenSince(dmark, vpDialCtxDone, 0)
+			if !isTO && waited {
+				t.Violate("C14", "timeout_not_reported", "%s ended after %v with %q (%T): the timeout expired while the connect to a silently dropping address was waiting (DialCtxDone in the trace), but the error does not report Timeout()", desc, el, derr.Error(), derr)
+			} else if !isTO {
+				t.Stat("deadline_passed_between_attempts", 1)
 			}
 		case "refused":
 			if isTO && el < timeout {
